@@ -43,6 +43,8 @@ inductive SRow
 /-- table ConvertStatus -/
 inductive KRow
   | status (fn const : String)
+  | dispatch (cond what : String)   -- a branch of ConvertErrors: its condition, the converter it calls / what it returns
+  | encode (call : String)          -- the body of ValidationErrorEncoder.Encode
   | unrecognised (site : String)
   deriving DecidableEq, Repr
 
@@ -177,6 +179,9 @@ def httpConst : String → Option Nat
 
 def statusesOf (t : List KRow) (fn : String) : List (Option Nat) :=
   t.filterMap (fun r => match r with | .status fn' c => if fn' == fn then some (httpConst c) else none | _ => none)
+
+def dispatchOf (t : List KRow) : List (String × String) :=
+  t.filterMap (fun r => match r with | .dispatch c w => some (c, w) | _ => none)
 
 def kUnrecognised (t : List KRow) : List String :=
   t.filterMap (fun r => match r with | .unrecognised s => some s | _ => none)
